@@ -209,4 +209,6 @@ def run(ctx):
     rules += list(zr.values())
     from rules.common import rule_narrow_units
     rules.append(rule_narrow_units(ctx, m, ["Digit.hpp", "DigitUtils.hpp", "QNumber.hpp"]))
+    from rules.common import rule_case_pairs
+    rules.append(rule_case_pairs(ctx, m))
     return rules
